@@ -601,6 +601,16 @@ func buildNoise(n *Noise, count int) []byte {
 		orig := codec.BuildIPv4(s, d, codec.ProtoUDP, 1, codec.V4Opts{ID: uint16(41821 + rng.IntN(30))}, u)
 		b, _ := codec.ICMPError(r, codec.V4TimeExceeded, 0, orig, codec.ICMPErrOpts{})
 		return b
+	case "synack":
+		// a SYN-ACK from the given address:port to some other local socket (args: addr, port): passes a
+		// SYN-ACK capture filter without belonging to anybody's handshake
+		src := netip.MustParseAddr(args[0])
+		d := netip.MustParseAddr("127.0.0.1")
+		if !src.IsLoopback() {
+			d = netip.MustParseAddr("192.0.2.2")
+		}
+		t := codec.BuildTCP(src, d, codec.TCPSeg{SrcPort: uint16(atoi(args[1])), DstPort: uint16(20000 + rng.IntN(10000)), Seq: rng.Uint32(), Ack: rng.Uint32(), Flags: codec.FlagSYN | codec.FlagACK, Window: 100, Options: []byte{2, 4, 5, 0xb4, 4, 2}})
+		return codec.BuildIPv4(src, d, codec.ProtoTCP, 50, codec.V4Opts{ID: uint16(rng.Uint32())}, t)
 	case "sctp":
 		s, d := a4(), a4()
 		return codec.BuildIPv4(s, d, 132, 50, codec.V4Opts{}, []byte{0, 1, 0, 2, 0, 0, 0, 0, 0, 0, 0, 0, 1, 0, 0, 4})
